@@ -637,12 +637,13 @@ def computeNeutronEnergyDepositionConstants(numberDensities, lib, microSuffix):
 
     Converted here to obtain J/cm (eV-bn * 1/bn-cm * J / eV)
     """
-    return (
-        computeMacroscopicGroupConstants(
-            "neutronHeating", numberDensities, lib, microSuffix
-        )
-        * units.JOULES_PER_eV
+    energyDepositionConsts = computeMacroscopicGroupConstants(
+        "neutronHeating", numberDensities, lib, microSuffix
     )
+    if energyDepositionConsts is None:
+        # nothing in this composition (same convention as computeMacroscopicGroupConstants)
+        return None
+    return energyDepositionConsts * units.JOULES_PER_eV
 
 
 def computeGammaEnergyDepositionConstants(numberDensities, lib, microSuffix):
@@ -676,12 +677,13 @@ def computeGammaEnergyDepositionConstants(numberDensities, lib, microSuffix):
 
     Convert here to obtain J/cm (eV-bn * 1/bn-cm * J / eV)
     """
-    return (
-        computeMacroscopicGroupConstants(
-            "gammaHeating", numberDensities, lib, microSuffix
-        )
-        * units.JOULES_PER_eV
+    energyDepositionConsts = computeMacroscopicGroupConstants(
+        "gammaHeating", numberDensities, lib, microSuffix
     )
+    if energyDepositionConsts is None:
+        # nothing in this composition (same convention as computeMacroscopicGroupConstants)
+        return None
+    return energyDepositionConsts * units.JOULES_PER_eV
 
 
 def computeFissionEnergyGenerationConstants(numberDensities, lib, microSuffix):
@@ -758,16 +760,7 @@ def computeCaptureEnergyGenerationConstants(numberDensities, lib, microSuffix):
     """
     captureEnergyFactor = None
     for xs in CAPTURE_XS:
-        if captureEnergyFactor is None:
-            captureEnergyFactor = np.zeros(
-                np.shape(
-                    computeMacroscopicGroupConstants(
-                        xs, numberDensities, lib, microSuffix, libType="micros"
-                    )
-                )
-            )
-
-        captureEnergyFactor += computeMacroscopicGroupConstants(
+        contribution = computeMacroscopicGroupConstants(
             xs,
             numberDensities,
             lib,
@@ -775,6 +768,13 @@ def computeCaptureEnergyGenerationConstants(numberDensities, lib, microSuffix):
             libType="micros",
             multConstant=E_CAPTURE,
         )
+        if contribution is None:
+            # nothing in this composition (same convention as computeMacroscopicGroupConstants)
+            return None
+        if captureEnergyFactor is None:
+            captureEnergyFactor = np.zeros(np.shape(contribution))
+
+        captureEnergyFactor += contribution
 
     return captureEnergyFactor
 
